@@ -12,12 +12,25 @@ import (
 //   call <callee>(<args>)      calls selected by keepCall (setters, designated helpers)
 // Closures are not descended into. Duplicates collapse.
 func effectShapes(f *ssa.Function, keepCall func(name string) bool) []string {
+	return effectShapesOpt(f, keepCall, false)
+}
+
+// effectShapesOpt with includeLocal also lists stores into local slices/arrays
+// (element stores and copy() calls), for functions that build their result in
+// a fresh slice.
+func effectShapesOpt(f *ssa.Function, keepCall func(name string) bool, includeLocal bool) []string {
 	set := map[string]bool{}
 	allInstrs(f, func(in ssa.Instruction) {
 		switch x := in.(type) {
 		case *ssa.Store:
 			if rootedInLocal(x.Addr) {
-				return
+				ia, isIdx := x.Addr.(*ssa.IndexAddr)
+				if !(includeLocal && isIdx) {
+					return
+				}
+				if a, ok := ia.X.(*ssa.Alloc); ok && arrayLiteral(a) != nil {
+					return // backing array of a variadic call
+				}
 			}
 			set["store "+exprStr(x.Addr, shapeOpts)+" ← "+exprStr(x.Val, shapeOpts)] = true
 		case *ssa.MapUpdate:
@@ -28,6 +41,10 @@ func effectShapes(f *ssa.Function, keepCall func(name string) bool) []string {
 		case ssa.CallInstruction:
 			cc := x.Common()
 			name := ""
+			if b, ok := cc.Value.(*ssa.Builtin); ok && includeLocal && b.Name() == "copy" {
+				set["copy("+exprStr(cc.Args[0], shapeOpts)+", "+exprStr(cc.Args[1], shapeOpts)+")"] = true
+				return
+			}
 			if cc.IsInvoke() {
 				name = cc.Method.Name()
 			} else if sc := cc.StaticCallee(); sc != nil {
